@@ -1,6 +1,7 @@
 SPECIFICATION Spec
 CONSTANTS
   Deviations <- AllDevs
+  Ranks <- R3
   Big = FALSE
 INVARIANT NeverRaises
 CHECK_DEADLOCK FALSE
